@@ -388,6 +388,7 @@ func refAggregate(fn string, vals []int) int {
 }
 
 func runC06(t *testing.T, sc c06Scenario) (v verdict) {
+	sim.BaseConfig() // documented defaults (controllerAdjustmentTickRate 200 ms, ...)
 	var vs []sim.Violation
 	add := func(k, m string) {
 		if len(vs) < 4 {
@@ -519,6 +520,14 @@ type c07aScenario struct {
 	Nodes  []curveNode  `json:"nodes"`
 	GridMd int          `json:"gridMilliDeg"`
 	Pairs  [][2]float64 `json:"pairs"`
+	// Walk: a temperature history with (virtual) time passing between the evaluations; every two
+	// evaluations of the history are compared, not only neighbours
+	Walk []c07aStep `json:"walk,omitempty"`
+}
+
+type c07aStep struct {
+	T    float64 `json:"t"`
+	DtMs int     `json:"dtMs"` // time since the previous evaluation
 }
 
 func genC07A(t *rapid.T) c07aScenario {
@@ -545,10 +554,21 @@ func genC07A(t *rapid.T) c07aScenario {
 		}
 		sc.Pairs = append(sc.Pairs, [2]float64{a, b})
 	}
+	nw := rapid.IntRange(8, 40).Draw(t, "nWalk")
+	for i := 0; i < nw; i++ {
+		sc.Walk = append(sc.Walk, c07aStep{T: near.Draw(t, "wt"), DtMs: rapid.SampledFrom([]int{0, 0, 1, 40, 99, 101, 200, 1000, 5000}).Draw(t, "dt")})
+	}
 	return sc
 }
 
-func runC07A(t *testing.T, sc c07aScenario) verdict {
+func runC07A(t *testing.T, sc c07aScenario) (v verdict) {
+	// in a bubble: the walk lets (virtual) time pass between evaluations
+	synctest.Test(t, func(*testing.T) { v = runC07AInBubble(t, sc) })
+	return v
+}
+
+func runC07AInBubble(t *testing.T, sc c07aScenario) verdict {
+	sim.BaseConfig() // documented defaults (controllerAdjustmentTickRate 200 ms, ...)
 	var vs []sim.Violation
 	c6 := c06Scenario{Sensors: 1, Nodes: sc.Nodes}
 	crv, sens, roots := buildForest(c6)
@@ -586,6 +606,30 @@ func runC07A(t *testing.T, sc c07aScenario) verdict {
 				vs = append(vs, sim.Violation{Key: "hotter-but-slower", Msg: fmt.Sprintf("root %s: T1=%v -> %d, T2=%v -> %d", nodeId(r), p[0], v1, p[1], v2)})
 				break
 			}
+		}
+		// history: every pair of evaluations along the walk, whatever happened in between
+		type obs struct {
+			t float64
+			v int
+		}
+		var hist []obs
+	walk:
+		for i, w := range sc.Walk {
+			time.Sleep(time.Duration(w.DtMs) * time.Millisecond)
+			sens[0].val = w.T
+			val, err := crv[r].Evaluate()
+			evals++
+			if err != nil {
+				vs = append(vs, sim.Violation{Key: "evaluate-error", Msg: err.Error()})
+				break
+			}
+			for j, o := range hist {
+				if (o.t <= w.T && o.v > val) || (o.t >= w.T && o.v < val) {
+					vs = append(vs, sim.Violation{Key: "hotter-but-slower", Msg: fmt.Sprintf("root %s, history: evaluation %d at %v m-deg -> %d, evaluation %d at %v m-deg -> %d", nodeId(r), j, o.t, o.v, i, w.T, val)})
+					break walk
+				}
+			}
+			hist = append(hist, obs{w.T, val})
 		}
 	}
 	uniq := map[float64]bool{}
